@@ -363,7 +363,7 @@ fn replay_lines(lines: &[(usize, String)], mode: &str, skip: &std::collections::
             "expgolomb" | "expgolomb_max" => crate::symbol_replay::golomb_case(&case, mode, &mut rep),
             "bits" => crate::bits_replay::bits_case(&case, mode, &mut rep),
             "backend" | "adapters" => crate::backend_replay::backend_case(&case, mode, &mut rep),
-            "fixed" | "uniform" | "fast" | "leaky" | "diag" | "floatclass" => crate::models::model_case(&case, mode, &mut rep),
+            "fixed" | "uniform" | "fast" | "leaky" | "diag" | "floatclass" | "uniformbig" => crate::models::model_case(&case, mode, &mut rep),
             k => { eprintln!("unknown case kind {}", k); std::process::exit(2); }
         }
     }
